@@ -19,7 +19,7 @@ pub fn def() -> CheckDef {
         level: "exploration",
         assumptions: &["monotone simulated clock", "RefFlow interprets the fragment without writers, generators, catches and jumps; a needs-branch whose needed sibling was skipped is left open (either)", "runtime worker threads are approximated by task-level interleaving on layer 1"],
         probes: &["probe.else_taken", "probe.else_not_taken", "probe.needs_ran", "probe.step_skipped", "probe.act_skipped", "probe.nested_depth3", "probe.either_nodes"],
-        quick_cases: 1500,
+        quick_cases: 2500,
         no_shrink: &[],
     }
 }
